@@ -19,7 +19,7 @@ from coqfmt import zraw, b, lst, tup, s as cstr
 
 replay = common.generic_replay
 
-IMPORTS = 'Graph PyHash Fingerprint FingerprintCGR LinearSmiles'
+IMPORTS = 'Graph PyHash Fingerprint FingerprintCGR LinearSmiles FingerprintVec MorganSmiles'
 EXTRA = '''
 Import ListNotations.
 Open Scope Z_scope.
@@ -78,6 +78,31 @@ Definition lhsm_ok (fa : list (Z * string)) (fb : list (Z * list (Z * string))) 
 Definition lhsmf_ok (fa : list (Z * string)) (fb : list (Z * list (Z * string))) (idd : list (Z * Z)) (g : mol) (lo hi : Z)
     (chs : list path) (nbp : Z) (e : list (Z * list string)) : bool :=
   sd_ok (linear_hash_smiles_fixed_with (fa_of fa) (fb_of fb) hash_ztuple_fast idd g chs nbp) e.
+(* the numpy arrays (Model.FingerprintVec) *)
+Definition vec_eqb := pyres_eqb (list_eqb Z.eqb).
+Definition lfp_ok (g : mol) (lo hi len nab nbp : Z) (e : pyres (list Z)) : bool := vec_eqb (linear_fingerprint hash_ztuple_fast g lo hi len nab nbp) e.
+Definition mfp_ok (g : mol) (lo hi len nab : Z) (e : pyres (list Z)) : bool := vec_eqb (morgan_fingerprint hash_ztuple_fast g lo hi len nab) e.
+Definition clfp_ok (c : cgr) (lo hi len nab nbp : Z) (e : pyres (list Z)) : bool := vec_eqb (cgr_linear_fingerprint hash_ztuple_fast c lo hi len nab nbp) e.
+Definition cmfp_ok (c : cgr) (lo hi len nab : Z) (e : pyres (list Z)) : bool := vec_eqb (cgr_morgan_fingerprint hash_ztuple_fast c lo hi len nab) e.
+Definition vfold_ok (len nab : Z) (hs : list Z) (e : pyres (list Z)) : bool := vec_eqb (vec_of len (bit_list len nab hs)) e.
+Definition mvfold_ok (len nab : Z) (hs : pyres (list Z)) (e : pyres (list Z)) : bool := vec_eqb (vec_of len (bit_list_of len nab hs)) e.
+(* morgan_hash_smiles / morgan_smiles_hash (Model.MorganSmiles) over the canonical strings observed on the implementation *)
+Definition ball_ok (g : mol) (a : Z) (r : nat) (e : list Z) : bool := list_eqb Z.eqb (set_z (ball g a r)) e.
+Definition mhsm_ok (t : list (list Z * string)) (g : mol) (lo hi : Z) (e : pyres (list (Z * list string))) : bool :=
+  match morgan_hash_smiles hash_ztuple_fast (cs_of t) g lo hi, e with
+  | Ok d, Ok e' => sd_ok d e'
+  | Err x, Err y => pyexn_eqb x y
+  | _, _ => false
+  end.
+Definition strd_ok (m e : list (string * list Z)) : bool :=
+  Nat.eqb (List.length m) (List.length e) && nodup_s (keys m) && nodup_s (keys e) &&
+  forallb (fun kv => smem (fst kv) (keys e) && list_eqb Z.eqb (strget e (fst kv)) (snd kv)) m.
+Definition msh_ok (t : list (list Z * string)) (g : mol) (lo hi : Z) (e : pyres (list (string * list Z))) : bool :=
+  match morgan_smiles_hash hash_ztuple_fast (cs_of t) g lo hi, e with
+  | Ok d, Ok e' => strd_ok d e'
+  | Err x, Err y => pyexn_eqb x y
+  | _, _ => false
+  end.
 (* CGR containers (Model.FingerprintCGR) *)
 Definition cwf_ok (c : cgr) : bool := wf_cgr c.
 Definition cids_ok (c : cgr) (e : list (Z * Z)) : bool := dict_eqb (cgr_atom_identifiers c) e.
@@ -305,6 +330,7 @@ BAD_LENGTHS = [0, -1, -1024]
 NABS = [1, 2, 3, 4, 1, 2, 3, 4, 0, -1, 5, 7]
 NBPS = [0, 1, 2, 3, 4, 5, 0, 4, -1, 9]
 # volume limits of one case (the Coq model hashes about 1000 tuple items per second under vm_compute)
+VEC_LENGTHS = [1, 2, 3, 8, 16, 64, 100, 128, 256, 0, -1]        # lengths of the arrays compared entry by entry
 MAX_PATHS_CHAINS = 1000        # _chains compared when it has at most this many chains
 MAX_PATHS_SEQ = 400            # the add sequence (every chain twice) compared
 MAX_PATHS_FRAGS = 300          # _fragments compared (dict_append is quadratic in the number of keys)
@@ -388,6 +414,11 @@ def mol_cases(ck, tag, g, m, rng):
             t, err = res_term(lambda: m.linear_bit_set(lo, hi, ln, nab, nbp), lambda s: zl(sorted(s)))
             add(f'lbs_full_ok {a} {zraw(ln)} {zraw(nab)} {zraw(nbp)} ({t})', 'linear_bit_set' + (':' + err if err else ''),
                 (lo, hi, ln, nab, nbp), lanes + 4 * n)
+            if small and affordable(lanes + 4 * n):
+                ln = rng.choice(VEC_LENGTHS)
+                t, err = res_term(lambda: m.linear_fingerprint(lo, hi, ln, nab, nbp).tolist(), zl)
+                add(f'lfp_ok {a} {zraw(ln)} {zraw(nab)} {zraw(nbp)} ({t})', 'linear_fingerprint (array)' + (':' + err if err else ''),
+                    (lo, hi, ln, nab, nbp), lanes + 4 * n)
     deg = sum(len(v) for v in m._bonds.values())
     mr = rng.sample(RADII, 3) + rng.sample(BAD_RADII, 1) if small else rng.sample([r for r in RADII if r[1] <= 3], 1) + rng.sample(BAD_RADII, 1)
     for lo, hi in mr:
@@ -407,6 +438,9 @@ def mol_cases(ck, tag, g, m, rng):
         nab = rng.choice(NABS)
         t, err = res_term(lambda: m.morgan_bit_set(lo, hi, ln, nab), lambda s: zl(sorted(s)))
         add(f'mbs_full_ok {a} {zraw(ln)} {zraw(nab)} ({t})', 'morgan_bit_set' + (':' + err if err else ''), (lo, hi, ln, nab), lanes + 4 * n)
+        ln = rng.choice(VEC_LENGTHS)
+        t, err = res_term(lambda: m.morgan_fingerprint(lo, hi, ln, nab).tolist(), zl)
+        add(f'mfp_ok {a} {zraw(ln)} {zraw(nab)} ({t})', 'morgan_fingerprint (array)' + (':' + err if err else ''), (lo, hi, ln, nab), lanes + 4 * n)
     return cases
 
 
@@ -486,6 +520,78 @@ def corr_molecules(ck):
                      [repr(x) for x in bad[:20]])
     by_tag = {tag: (smi, m) for tag, smi, m in mols}
     return good, bad, by_tag
+
+
+# ------------------------------------------------------------------------------------------------------------
+# morgan_hash_smiles / morgan_smiles_hash: the model over the canonical strings observed on the implementation
+
+MS_SMILES = ['C', 'CC', 'CCO', 'CC(C)O', 'c1ccccc1', 'Cc1ccccc1', 'C1CC1', 'C#N', '[NH4+]', '[O-]C=O', 'CC.CC', '[Na+].[Cl-]', 'C=C=C', 'FC(F)(F)F',
+             'O[C@H]1C[C@@H](O)C1', 'C[C@H](O)F', 'F/C=C/F', 'C[N+](C)(C)C', 'OCC(O)CO', 'N#CC#N', 'C1CC2CC1C2', 'CS(=O)(=O)N']
+
+
+def corr_morgan_smiles(ck):
+    rng = random.Random(f'{ck.seed}:morgan_smiles')
+    quick = ck.tier == 'quick'
+    pool = [('hand:' + s_, parse(s_)) for s_ in MS_SMILES]
+    n_c = 0
+    for smi in corpus.sample(corpus.lipo(), 300 if quick else 2000, ck.seed, 'c17ms'):
+        if n_c >= (10 if quick else 120):
+            break
+        m = parse(smi)
+        if m is None or len(m._atoms) > 16:
+            continue
+        n_c += 1
+        pool.append(('corpus:' + smi, m))
+    pool = [(tag, m) for tag, m in pool if m is not None]
+    pool += [(tag + ':renumbered', renumbered(m, rng)) for j, (tag, m) in enumerate(pool) if j % 3 == 0]
+    defs, cases, meta = [], [], []
+    conflicts = []
+
+    def add(expr, tag, what, params):
+        cases.append(expr)
+        meta.append((tag, what, params))
+        ck.case(meta[-1])
+        ck.count('ms:' + what)
+
+    for i, (tag, m) in enumerate(pool):
+        g = f'q{i}'
+        ck.count('ms molecules:' + tag.split(':')[0] + (':renumbered' if tag.endswith(':renumbered') else ''))
+        radii = rng.sample([(1, 1), (1, 2), (1, 3), (2, 2), (2, 3), (1, 4), (3, 3)], 2) + rng.sample(BAD_RADII, 1)
+        table = {}
+        try:
+            for lo, hi in radii:
+                if not 1 <= lo <= hi:
+                    continue
+                for r in range(lo - 1, hi):
+                    for a in m._atoms:
+                        key = tuple(sorted(m._augmented_substructure((a,), r)[-1]))
+                        s_ = format(m.augmented_substructure((a,), deep=r), 'A')
+                        if table.setdefault(key, s_) != s_:
+                            conflicts.append((tag, key))
+            results = [(lo, hi, res_term(lambda: m.morgan_hash_smiles(lo, hi), lambda d: lst([tup(zx(k), lst([cstr(x) for x in v])) for k, v in d.items()])),
+                        res_term(lambda: m.morgan_smiles_hash(lo, hi), lambda d: lst([tup(cstr(k), zl(v)) for k, v in d.items()]))) for lo, hi in radii]
+        except Exception:               # a substructure that chython cannot build / write: outside this correspondence
+            ck.count('ms:skipped (substructure not writable)')
+            continue
+        defs.append(f'Definition {g} : mol := {coqmol.mol_term(m)}.\n'
+                    f'Definition t{g} : list (list Z * string) := {lst([tup(zl(k), cstr(v)) for k, v in table.items()])}.\n')
+        add(f'wf_mol {g}', tag, 'wf_mol', ())
+        for a in rng.sample(list(m._atoms), min(3, len(m._atoms))):
+            r = rng.choice([0, 1, 2, 3])
+            add(f'ball_ok {g} {zraw(a)} {r}%nat {zl(sorted(m._augmented_substructure((a,), r)[-1]))}', tag, '_augmented_substructure (atom set)', (a, r))
+        for lo, hi, (t1, e1), (t2, e2) in results:
+            add(f'mhsm_ok t{g} {g} {zraw(lo)} {zraw(hi)} ({t1})', tag, 'morgan_hash_smiles' + (':' + e1 if e1 else ''), (lo, hi))
+            add(f'msh_ok t{g} {g} {zraw(lo)} {zraw(hi)} ({t2})', tag, 'morgan_smiles_hash' + (':' + e2 if e2 else ''), (lo, hi))
+    n_sh = 2 if quick else 12
+    ok, failing, log = coqcases.run_cases('c17s', IMPORTS, cases, extra=EXTRA + ''.join(defs), shard=max(1, (len(cases) + n_sh - 1) // n_sh))
+    good = ok and not failing and not conflicts
+    ck.oblige(f'correspondence (morgan_hash_smiles): atom set of augmented_substructure, morgan_hash_smiles and morgan_smiles_hash == Model.MorganSmiles over the '
+              f'canonical strings observed on the implementation (a function of the atom set: {len(conflicts)} conflicts) on {len(pool)} molecules / {len(cases)} cases',
+              good, 'correspondence', log or repr([meta[i] for i in failing[:8]] + conflicts[:3]))
+    ck.extra['morgan_smiles_cases'] = len(cases)
+    if not good:
+        ck.unchecked('correspondence MorganSmiles model vs morgan_hash_smiles / morgan_smiles_hash', log[-1500:], [repr(meta[i]) for i in failing[:20]] + [repr(c) for c in conflicts[:5]])
+    return good
 
 
 # ------------------------------------------------------------------------------------------------------------
@@ -665,6 +771,9 @@ def corr_cgr(ck):
                 nab = rng.choice(NABS)
                 t_, err = res_term(lambda: c.linear_bit_set(lo, hi, ln, nab, nbp), lambda s: zl(sorted(s)))
                 add(f'clbs_ok {a} {zraw(ln)} {zraw(nab)} {zraw(nbp)} ({t_})', tag, 'linear_bit_set' + (':' + err if err else ''), (lo, hi, ln, nab, nbp))
+                ln = rng.choice(VEC_LENGTHS)
+                t_, err = res_term(lambda: c.linear_fingerprint(lo, hi, ln, nab, nbp).tolist(), zl)
+                add(f'clfp_ok {a} {zraw(ln)} {zraw(nab)} {zraw(nbp)} ({t_})', tag, 'linear_fingerprint (array)' + (':' + err if err else ''), (lo, hi, ln, nab, nbp))
         for lo, hi in (rng.sample(RADII, 2) if small else rng.sample([r for r in RADII if r[1] <= 3], 1)) + rng.sample(BAD_RADII, 1):
             a = f'{g} {zraw(lo)} {zraw(hi)}'
             t_, err = res_term(lambda: c._morgan_hash_dict(lo, hi), lambda ds: lst([dict_term(x) for x in ds]))
@@ -675,6 +784,9 @@ def corr_cgr(ck):
                 ln, nab = rng.choice(LENGTHS + BAD_LENGTHS), rng.choice(NABS)
                 t_, err = res_term(lambda: c.morgan_bit_set(lo, hi, ln, nab), lambda s: zl(sorted(s)))
                 add(f'cmbs_ok {a} {zraw(ln)} {zraw(nab)} ({t_})', tag, 'morgan_bit_set' + (':' + err if err else ''), (lo, hi, ln, nab))
+                ln = rng.choice(VEC_LENGTHS)
+                t_, err = res_term(lambda: c.morgan_fingerprint(lo, hi, ln, nab).tolist(), zl)
+                add(f'cmfp_ok {a} {zraw(ln)} {zraw(nab)} ({t_})', tag, 'morgan_fingerprint (array)' + (':' + err if err else ''), (lo, hi, ln, nab))
     n_sh = 4 if ck.tier == 'quick' else 24
     ok, failing, log = coqcases.run_cases('c17c', IMPORTS, [x[0] for x in cases], extra=EXTRA + ''.join(defs), shard=max(1, (len(cases) + n_sh - 1) // n_sh))
     good = ok and not failing
@@ -902,6 +1014,16 @@ def corr_folding(ck):
             cases.append(f'mfold_ok {zraw(ln)} {zraw(nab)} ({arg}) ({t})')
             meta.append(('morgan_bit_set on a stub hash set', ln, nab, None if mor.hs is None else sorted(hs)))
             ck.count('fold:morgan' + (':' + err if err else ''))
+            if ln <= 300 and rep == 0:
+                # the real array methods on the same stub hash sets (numpy assignment with boundary hash values)
+                t, err = res_term(lambda: lin.linear_fingerprint(2, 5, ln, nab, 3).tolist(), zl)
+                cases.append(f'vfold_ok {zraw(ln)} {zraw(nab)} {zl(sorted(hs))} ({t})')
+                meta.append(('linear_fingerprint on a stub hash set', ln, nab, sorted(hs)))
+                ck.count('fold:linear array' + (':' + err if err else ''))
+                t, err = res_term(lambda: mor.morgan_fingerprint(2, 5, ln, nab).tolist(), zl)
+                cases.append(f'mvfold_ok {zraw(ln)} {zraw(nab)} ({arg}) ({t})')
+                meta.append(('morgan_fingerprint on a stub hash set', ln, nab, None if mor.hs is None else sorted(hs)))
+                ck.count('fold:morgan array' + (':' + err if err else ''))
     for x in meta:
         ck.case(x)
     ok, failing, log = coqcases.run_cases('c17f', IMPORTS, cases, extra=EXTRA, shard=700)
@@ -1407,8 +1529,9 @@ def run(ck):
     tied_fold, bad_fold = timed('correspondence folding', corr_folding, ck)
     tied_x, bad_x, by_tag_x = timed('correspondence exhaustive', corr_exhaustive, ck)
     tied_cgr = timed('correspondence + search CGR', corr_cgr, ck)
+    tied_ms = timed('correspondence morgan_hash_smiles', corr_morgan_smiles, ck)
     tied_fp, bad, by_tag = timed('correspondence molecules', corr_molecules, ck)
-    all_ok = proved and tied_hash and tied_fp and tied_fold and tied_x and tied_cgr
+    all_ok = proved and tied_hash and tied_fp and tied_fold and tied_x and tied_cgr and tied_ms
     if not (tied_fp and tied_x):
         by_tag.update(by_tag_x)
         timed('directed search', directed_search, ck, bad_x + bad, by_tag)
@@ -1420,4 +1543,4 @@ def run(ck):
         n_corpus, n_gen = (1500, 1500) if all_ok else (3000, 3000)
     timed('search', search, ck, n_corpus, n_gen)
     ck.extra['proved'] = proved
-    ck.extra['tied'] = bool(tied_hash and tied_fp and tied_fold and tied_x and tied_cgr)
+    ck.extra['tied'] = bool(tied_hash and tied_fp and tied_fold and tied_x and tied_cgr and tied_ms)
